@@ -10,8 +10,22 @@ try:
     ref = alpha.build_reference(tmp)
     from sa import refs
     bodies = refs.build_bodies(tmp)
+    import ast as _ast
+    meta = {}
+    mdir = os.path.join(tmp, "sasmodels", "models")
+    for f in sorted(os.listdir(mdir)):
+        if f.endswith(".py") and not f.startswith("_"):
+            tree = _ast.parse(open(os.path.join(mdir, f)).read())
+            flags = {}
+            for st in tree.body:
+                if isinstance(st, _ast.Assign) and len(st.targets) == 1 and isinstance(st.targets[0], _ast.Name) \
+                        and st.targets[0].id in ("single", "opencl", "structure_factor", "have_Fq"):
+                    flags[st.targets[0].id] = _ast.unparse(st.value)
+            meta[f[:-3]] = flags
 finally:
     shutil.rmtree(tmp)
+with open(os.path.join(os.path.dirname(os.path.abspath(__file__)), "..", "sa", "refmeta.json"), "w") as fd:
+    json.dump(meta, fd, sort_keys=True, indent=0)
 out = os.path.join(os.path.dirname(os.path.abspath(__file__)), "..", "sa", "refshape.json")
 with open(out, "w") as fd:
     json.dump(ref, fd, sort_keys=True, separators=(",", ":"))
